@@ -18,6 +18,10 @@ R11e provenance: _finalize_command calls finalize() without testing is_finalized
      instances from (registry.get_running_command, uod.get_command / create_command, create_internal_command; helper
      returns are followed). An instance taken from anywhere else (e.g. a reference kept on the request) can be a finalized
      one and is finalized twice. If _finalize_command becomes idempotent the provenance no longer matters.
+R11d (extended) the dispose is reached even if the finalize callback raises (it sits in a `finally`).
+R11f _cancel_command: from <command>.cancel() the finalisation is reached on every path when finalize is asked for, exceptional
+     paths included (tracking may refuse to mark a user-started or forced instruction cancelled); and a uod request that is
+     cancelled while it has no instance yet is retired instead of being left to start its command later in the same tick.
 Decides the lifecycle structure; double finalisation under exceptions in UOD callbacks is not decided.
 """
 from __future__ import annotations
@@ -230,6 +234,64 @@ def run(ctx) -> None:
             ctx.ok("R11d", inst)
         else:
             ctx.fail("R11d", fn, fn.node, inst, "a finalized command stays registered as a live instance", p)
+        # ... also when the user's finalize callback raises: from the call of the callback every path, exceptional ones
+        # included, reaches the dispose (a `finally`), otherwise the instance stays registered, later requests of the
+        # command never execute and Stop finalizes it a second time
+        cb = [n for n in gg.nodes if n.ast is not None and any(isinstance(c.func, ast.Attribute) and c.func.attr.endswith("_fn")
+                                                               and isinstance(c.func.value, ast.Name) for c in n.calls())]
+        for cbn in cb:
+            inst = f"{fn.short}: {disp} is reached even if `{cbn.text()[:40]}` raises"
+            p2 = gg.path_to_exit_avoiding([cbn.id], lambda n: node_calls(n, disp), follow_exc=True, include_raise=True)
+            if p2 is None:
+                ctx.ok("R11d", inst)
+            else:
+                ctx.fail("R11d", fn, cbn.ast, inst, "an exception from the finalize callback skips the dispose: the finalized instance stays "
+                         "registered, later requests of the command find it and never execute, and it is finalized again when the run stops", p2)
+    # ---- R11f: cancelling always finalizes and retires
+    ctx.rule("R11f", "a cancelled command is finalized whatever tracking says; a request cancelled before it started is retired")
+    cnf = prog.func(f"{CM}._cancel_command")
+    ctx.analysed(cnf)
+    gc_ = cfg_of(cnf)
+    cancels = [n for n in gc_.nodes if n.ast is not None and any(call_attr(c) == "cancel" and isinstance(c.func, ast.Attribute)
+                                                                 and isinstance(c.func.value, ast.Name) for c in n.calls())]
+    if not cancels:
+        raise AnchorError("_cancel_command: <command>.cancel() not found")
+    fpar = cnf.node.args.args[2].arg if len(cnf.node.args.args) > 2 else "finalize"
+
+    def not_asked(sid, d, lab):
+        nn = gc_.nodes[sid]
+        return nn.kind == "test" and norm(nn.ast) == fpar and lab == "F"
+    inst = "_cancel_command: finalisation is reached from <command>.cancel() on every path, exceptional ones included"
+    p3 = gc_.search([cancels[0].id], lambda n: n.id in (gc_.exit.id, gc_.raise_exit.id), blocked=lambda n: node_calls(n, "_finalize_command"),
+                    blocked_edge=not_asked, follow_exc=True)
+    if p3 is None:
+        ctx.ok("R11f", inst)
+    else:
+        ctx.fail("R11f", cnf, cancels[0].ast, inst, "an exception after the command was cancelled (tracking refuses to mark a user-started or a "
+                 "forced instruction cancelled) skips the finalisation: the command is flagged cancelled but stays registered and its "
+                 "request stays live - the superseding command runs beside it, is cancelled by it, or the instance survives Stop", p3)
+    lookup = [n for n in gc_.nodes if n.kind == "test" and any(isinstance(x, ast.Name) for x in ast.walk(n.ast)) and "is None" in norm(n.ast)
+              or (n.kind == "test" and norm(n.ast).endswith("is not None"))]
+    none_tests = [n for n in gc_.nodes if n.kind == "test" and isinstance(n.ast, ast.Compare) and isinstance(n.ast.ops[0], (ast.Is, ast.IsNot))
+                  and isinstance(n.ast.comparators[0], ast.Constant) and n.ast.comparators[0].value is None
+                  and any(gc_.edge_dominates(n.id, "T" if isinstance(n.ast.ops[0], ast.IsNot) else "F", cancels[0].id) for _ in [0])]
+    inst = "_cancel_command: a uod request cancelled before its command started is retired"
+    if not none_tests:
+        raise AnchorError("_cancel_command: the `no instance` branch was not recognised")
+    nt = none_tests[0]
+    none_lab = "F" if isinstance(nt.ast.ops[0], ast.IsNot) else "T"
+
+    def non_uod(sid, d, lab):
+        nn = gc_.nodes[sid]
+        return nn.kind == "test" and "has_command_name" in norm(nn.ast) and lab == "F"
+    p4 = gc_.search([(nt.id, none_lab)], lambda n: n.id == gc_.exit.id, blocked=lambda n: node_calls(n, "_executing_command_done"),
+                    blocked_edge=non_uod, follow_exc=False)
+    if p4 is None:
+        ctx.ok("R11f", inst)
+    else:
+        ctx.fail("R11f", cnf, nt.ast, inst, "a request that is cancelled while it has no instance yet (it arrived in the same tick as the request "
+                 "that supersedes it) stays in the executing list: later in the tick it starts its command after all and cancels the "
+                 "newer one - two instances of a command (or of an overlap group) execute in one tick and the older request wins", p4)
 
 
 def _check_overlap_relation(ctx, prog, f, lookup: ast.AST) -> None:
